@@ -187,10 +187,10 @@ def replay_autosort(ob):
 
 
 # ------------------------------------------------------------------ check_order
-def unit_check_order(n, tier=None, seed=None):
+def unit_check_order(n, tier=None, seed=None, prop="C14"):
     meta = read_meta()
     uni = list(meta)
-    S = Session("C14", "check_order", f"{MOD}:check_order")
+    S = Session(prop, "check_order", f"{MOD}:check_order")
     st = {}
 
     def setup(I):
@@ -385,10 +385,10 @@ def replay_apply(ob):
 
 
 CANARIES = [
-    dict(name="autosort comparison inverted", file="preproc.py", old="            if rix > cix:\n                # We pop",
-         new="            if rix < cix:\n                # We pop", expect="autosort"),
-    dict(name="autosort ignores optional steps", file="preproc.py", old="                if ostep in identifiers:\n                    steps_precursor.append(ostep)",
-         new="                if False:\n                    steps_precursor.append(ostep)", expect="autosort"),
+    dict(name="autosort comparison inverted", file="preproc.py", old="                if rix > cix:\n                    # We pop",
+         new="                if rix < cix:\n                    # We pop", expect="autosort"),
+    dict(name="autosort ignores optional steps", file="preproc.py", old="                    if ostep in identifiers:\n                        steps_precursor.append(ostep)",
+         new="                    if False:\n                        steps_precursor.append(ostep)", expect="autosort"),
     dict(name="apply requirement test uses union", file="preproc.py", old="((set(req) & set(act)) != set(req))",
          new="((set(req) | set(act)) != set(req))", expect="apply"),
     dict(name="check_order ignores optional order", file="preproc.py", old="            if np.any(np.array(rio) > cix):",
